@@ -12,6 +12,8 @@ pub enum Listener {
     Tcp(TcpListener),
     #[cfg(unix)]
     Unix(unix_net::UnixListener),
+    #[cfg(tiny_http_verif)]
+    Sim(simrt::net::Listener),
 }
 impl Listener {
     pub(crate) fn local_addr(&self) -> std::io::Result<ListenAddr> {
@@ -19,6 +21,8 @@ impl Listener {
             Self::Tcp(l) => l.local_addr().map(ListenAddr::from),
             #[cfg(unix)]
             Self::Unix(l) => l.local_addr().map(ListenAddr::from),
+            #[cfg(tiny_http_verif)]
+            Self::Sim(l) => l.local_addr().map(ListenAddr::Sim),
         }
     }
 
@@ -29,7 +33,15 @@ impl Listener {
                 .map(|(conn, addr)| (Connection::from(conn), Some(addr))),
             #[cfg(unix)]
             Self::Unix(l) => l.accept().map(|(conn, _)| (Connection::from(conn), None)),
+            #[cfg(tiny_http_verif)]
+            Self::Sim(l) => l.accept().map(|(conn, addr)| (Connection::from(conn), addr)),
         }
+    }
+}
+#[cfg(tiny_http_verif)]
+impl From<simrt::net::Listener> for Listener {
+    fn from(s: simrt::net::Listener) -> Self {
+        Self::Sim(s)
     }
 }
 impl From<TcpListener> for Listener {
@@ -50,6 +62,8 @@ pub(crate) enum Connection {
     Tcp(TcpStream),
     #[cfg(unix)]
     Unix(unix_net::UnixStream),
+    #[cfg(tiny_http_verif)]
+    Sim(simrt::net::Stream),
 }
 impl std::io::Read for Connection {
     fn read(&mut self, buf: &mut [u8]) -> std::io::Result<usize> {
@@ -57,6 +71,8 @@ impl std::io::Read for Connection {
             Self::Tcp(s) => s.read(buf),
             #[cfg(unix)]
             Self::Unix(s) => s.read(buf),
+            #[cfg(tiny_http_verif)]
+            Self::Sim(s) => s.read(buf),
         }
     }
 }
@@ -66,6 +82,8 @@ impl std::io::Write for Connection {
             Self::Tcp(s) => s.write(buf),
             #[cfg(unix)]
             Self::Unix(s) => s.write(buf),
+            #[cfg(tiny_http_verif)]
+            Self::Sim(s) => s.write(buf),
         }
     }
 
@@ -74,6 +92,8 @@ impl std::io::Write for Connection {
             Self::Tcp(s) => s.flush(),
             #[cfg(unix)]
             Self::Unix(s) => s.flush(),
+            #[cfg(tiny_http_verif)]
+            Self::Sim(s) => s.flush(),
         }
     }
 }
@@ -84,6 +104,8 @@ impl Connection {
             Self::Tcp(s) => s.peer_addr().map(Some),
             #[cfg(unix)]
             Self::Unix(_) => Ok(None),
+            #[cfg(tiny_http_verif)]
+            Self::Sim(s) => s.peer_addr(),
         }
     }
 
@@ -92,6 +114,8 @@ impl Connection {
             Self::Tcp(s) => s.shutdown(how),
             #[cfg(unix)]
             Self::Unix(s) => s.shutdown(how),
+            #[cfg(tiny_http_verif)]
+            Self::Sim(s) => s.shutdown(how),
         }
     }
 
@@ -100,7 +124,15 @@ impl Connection {
             Self::Tcp(s) => s.try_clone().map(Self::from),
             #[cfg(unix)]
             Self::Unix(s) => s.try_clone().map(Self::from),
+            #[cfg(tiny_http_verif)]
+            Self::Sim(s) => s.try_clone().map(Self::from),
         }
+    }
+}
+#[cfg(tiny_http_verif)]
+impl From<simrt::net::Stream> for Connection {
+    fn from(s: simrt::net::Stream) -> Self {
+        Self::Sim(s)
     }
 }
 impl From<TcpStream> for Connection {
@@ -147,6 +179,8 @@ pub enum ListenAddr {
     IP(SocketAddr),
     #[cfg(unix)]
     Unix(unix_net::SocketAddr),
+    #[cfg(tiny_http_verif)]
+    Sim(simrt::net::Addr),
 }
 impl ListenAddr {
     pub fn to_ip(self) -> Option<SocketAddr> {
@@ -154,6 +188,8 @@ impl ListenAddr {
             Self::IP(s) => Some(s),
             #[cfg(unix)]
             Self::Unix(_) => None,
+            #[cfg(tiny_http_verif)]
+            Self::Sim(_) => None,
         }
     }
 
@@ -165,6 +201,8 @@ impl ListenAddr {
         match self {
             Self::IP(_) => None,
             Self::Unix(s) => Some(s),
+            #[cfg(tiny_http_verif)]
+            Self::Sim(_) => None,
         }
     }
     #[cfg(not(unix))]
@@ -189,6 +227,8 @@ impl std::fmt::Display for ListenAddr {
             Self::IP(s) => s.fmt(f),
             #[cfg(unix)]
             Self::Unix(s) => std::fmt::Debug::fmt(s, f),
+            #[cfg(tiny_http_verif)]
+            Self::Sim(s) => std::fmt::Display::fmt(s, f),
         }
     }
 }
